@@ -3,6 +3,7 @@ content, scan trees with exact copies / decoys / partial files / hard links, pri
 flags and thread counts.  Everything derives from the rng handed in."""
 import hashlib
 import os
+import random
 
 import docgen
 
@@ -169,6 +170,10 @@ class World:
                 if k not in gone and v[0] == "link" and tuple(v[1]) in gone:
                     gone.add(k)
                     changed = True
+        for k, v in list(self.files.items()):
+            # a symbolic link left dangling would redirect the creation of the export file to where it points
+            if v[0] == "symlink" and any(g[0] == b"vault" and v[1].endswith(b"/" + b"/".join(g)) for g in gone):
+                gone.add(k)
         for k in gone:
             del self.files[k]
 
@@ -219,6 +224,8 @@ def gen_world(rng, ntorrents=None, allow_shared=True, empties=False, export_heav
         if w.torrents[1].info_hash == w.torrents[0].info_hash:
             w.torrents.pop()
     w.presented = list(range(len(w.torrents)))
+    # decisions added later draw from a generator of their own, so that the worlds of a given seed keep everything else
+    rng2 = random.Random(b"symlinks" + (w.torrents[0].info_hash if w.torrents else b""))
     nscan = rng.choice([1, 1, 2, 3])
     if rng.random() < 0.3:
         scan_roots = [(nm,) for nm in [b"media", b"media2", b"media22"][:nscan]]     # textual prefixes of one another, not ancestors
@@ -287,6 +294,8 @@ def gen_world(rng, ntorrents=None, allow_shared=True, empties=False, export_heav
                 w.put_file(fresh_under(rng.choice(scan_roots), leaf), f.content + b"x")
             # prior export state
             st = rng.choice(["absent", "absent", "absent", "shorter", "exact-correct", "exact-partly", "exact-wrong", "longer"])
+            if rng2.random() < 0.06:
+                st = "symlink-correct"
             if export_heavy:
                 st = rng.choice(["absent", "shorter", "shorter", "shorter", "exact-correct", "exact-partly", "exact-wrong", "longer" if rng.random() < 0.25 else "shorter"])
             tgt = tuple(list(w.export) + t.rel_target(f))
@@ -304,10 +313,27 @@ def gen_world(rng, ntorrents=None, allow_shared=True, empties=False, export_heav
                 w.put_file(tgt, corrupt(rng, f.content, "zeros"))
             elif st == "longer":
                 w.put_file(tgt, f.content + bytes(rng.randint(1, 3)))
+            elif st == "symlink-correct":
+                # the finished file lives elsewhere (not under any scan directory) and is linked into the export tree symbolically
+                counter[0] += 1
+                v = (b"vault", b"v%d" % counter[0])
+                w.put_dir((b"vault",))
+                w.put_file(v, f.content)
+                w.files[tgt] = ("symlink", b"../" * (len(tgt) - 1) + b"/".join(v))
             w.notes.setdefault("export_states", {}).setdefault(st, 0)
             w.notes["export_states"][st] += 1
     if rng.random() < 0.3:
         w.files[scan_roots[0] + (b"sym",)] = ("symlink", b"../loose.bin")
+    if rng2.random() < 0.12:
+        # a scan directory given through a symbolic link (the walk follows its root and reports paths under the link's spelling)
+        k = rng2.randrange(len(scan_roots))
+        lnk = (b"lnk_" + scan_roots[k][0],)
+        w.files[lnk] = ("symlink", scan_roots[k][0])
+        if rng2.random() < 0.6:
+            w.scans[k] = lnk
+        else:
+            w.scans.append(lnk)
+        w.notes["scan_via_symlink"] = True
     if rng.random() < 0.25:
         w.put_file(tuple(list(w.export) + [b"stray.txt"]), b"stray")
     w.resize = rng.random() < 0.35
@@ -344,24 +370,44 @@ def materialise(w, root):
             os.link(full(what[1]), full(rel))
 
 
-def snapshot(root):
-    """rel path (tuple of byte components) -> ('dir',) | ('file', content, (dev, ino)) | ('symlink', target)"""
+def snapshot(root, follow_files_under=None, follow_dirs=()):
+    """rel path (tuple of byte components) -> ('dir',) | ('file', content, (dev, ino)) | ('symlink', target).
+    Symbolic links are recorded as such, except where the tool itself resolves them: a link to a regular file
+    below `follow_files_under` (the export directory: export files are opened by path) is recorded as the file it
+    resolves to - same (dev, ino), i.e. one more name of that inode (marked with a fourth component True: a directory walk does not list it); a link to a directory listed in `follow_dirs`
+    (a scan directory given through a link: the walk follows its root) is recorded as a directory holding the same
+    inodes under the link's spelling."""
     snap = {}
     broot = os.fsencode(root)
-    for d, dirs, files in os.walk(broot):
-        rel = () if d == broot else tuple(os.path.relpath(d, broot).split(b"/"))
-        if rel:
-            snap[rel] = ("dir",)
-        for n in dirs:
-            p = os.path.join(d, n)
-            if os.path.islink(p):
-                snap[rel + (n,)] = ("symlink", os.readlink(p))
-        for n in files:
-            p = os.path.join(d, n)
-            if os.path.islink(p):
-                snap[rel + (n,)] = ("symlink", os.readlink(p))
-            else:
-                st = os.stat(p)
-                with open(p, "rb") as f:
-                    snap[rel + (n,)] = ("file", f.read(), (st.st_dev, st.st_ino))
+    follow_dirs = set(tuple(d) for d in follow_dirs)
+
+    def record_file(rel, p, link=False):
+        st = os.stat(p)
+        with open(p, "rb") as f:
+            snap[rel] = ("file", f.read(), (st.st_dev, st.st_ino)) + ((True,) if link else ())
+
+    def walk(top, relbase):
+        for d, dirs, files in os.walk(top):
+            rel = relbase if d == top else relbase + tuple(os.path.relpath(d, top).split(b"/"))
+            if rel:
+                snap[rel] = ("dir",)
+            for n in dirs:
+                p = os.path.join(d, n)
+                if os.path.islink(p):
+                    r = rel + (n,)
+                    if r in follow_dirs and os.path.isdir(p):
+                        walk(os.path.realpath(p), r)
+                    else:
+                        snap[r] = ("symlink", os.readlink(p))
+            for n in files:
+                p = os.path.join(d, n)
+                r = rel + (n,)
+                if os.path.islink(p):
+                    if follow_files_under is not None and r[:len(follow_files_under)] == tuple(follow_files_under) and os.path.isfile(p):
+                        record_file(r, p, True)
+                    else:
+                        snap[r] = ("symlink", os.readlink(p))
+                else:
+                    record_file(r, p)
+    walk(broot, ())
     return snap
